@@ -3,10 +3,12 @@ package main
 
 import (
 	"bytes"
+	"encoding/json"
 	"errors"
 	"hash"
 	"io"
 	"strings"
+	"unicode/utf8"
 
 	"github.com/linuxboot/fiano/pkg/fmap"
 	. "verifharness/common"
@@ -127,6 +129,68 @@ func opWrite(args []string) string {
 		return ErrClass(err, errTable)
 	}
 	return "ok " + H(f.b)
+}
+
+// jsonSchema is the JSON document of `fmap jget` / `fmap jput` (cmds/fmap/fmap.go).
+type jsonSchema struct {
+	FMap     *fmap.FMap
+	Metadata *fmap.Metadata
+}
+
+// jsonRoundTrip does what `fmap jget J IMG; fmap jput J IMG` does: read, marshal, unmarshal, write.
+func jsonRoundTrip(img []byte) ([]byte, *fmap.FMap, error) {
+	m, md, err := fmap.Read(bytes.NewReader(img))
+	if err != nil {
+		return nil, nil, err
+	}
+	data, err := json.MarshalIndent(jsonSchema{m, md}, "", "\t")
+	if err != nil {
+		return nil, m, errors.New("json: " + err.Error())
+	}
+	j := jsonSchema{}
+	if err := json.Unmarshal(data, &j); err != nil {
+		return nil, m, errors.New("json: " + err.Error())
+	}
+	f := &memFile{b: append([]byte{}, img...)}
+	if err := fmap.Write(f, j.FMap, j.Metadata); err != nil {
+		return nil, m, err
+	}
+	return f.b, m, nil
+}
+
+func opJSONRT(args []string) string {
+	out, _, err := jsonRoundTrip(UnH(args[0]))
+	if err != nil {
+		if strings.HasPrefix(err.Error(), "json: ") {
+			return "err 6"
+		}
+		return ErrClass(err, errTable)
+	}
+	return "ok " + H(out)
+}
+
+// jget + jput leaves the image unchanged
+func pJSONID(args []string) string {
+	img := UnH(args[0])
+	out, m, err := jsonRoundTrip(img)
+	if m == nil {
+		return "skip"
+	}
+	valid := utf8.Valid([]byte(m.Name.String()))
+	for i := range m.Areas {
+		valid = valid && utf8.Valid([]byte(m.Areas[i].Name.String()))
+	}
+	tag := ""
+	if !valid {
+		tag = "non-utf8-name "
+	}
+	if err != nil {
+		return "FAIL " + tag + "json-roundtrip-error"
+	}
+	if !bytes.Equal(out, img) {
+		return "FAIL " + tag + "image-changed-by-jget-jput"
+	}
+	return "ok"
 }
 
 func opReadArea(args []string) string {
@@ -449,6 +513,25 @@ func gen(r *Rng, tier string, emit Emit) {
 		written := f.b
 		emit("C", "read", H(written))
 		emit("P", "p_read_write_id", H(written))
+		emit("C", "jsonrt", H(written))
+		emit("P", "p_json_id", H(written))
+		if rr.Chance(1, 12) && len(m.Areas) > 0 {
+			// names that are not 7-bit: valid UTF-8 must survive; bytes that are not valid UTF-8 do not
+			// (KNOWN FINDING, known_findings.txt)
+			m3 := *m
+			m3.Areas = append([]fmap.Area{}, m.Areas...)
+			k := rr.Intn(len(m3.Areas))
+			var nm [32]uint8
+			if rr.Bool() {
+				copy(nm[:], "h\xc3\xa9llo-\xe2\x82\xac-\xf0\x9f\x98\x80")
+			} else {
+				copy(nm[:], []byte{'A', byte(0x80 + rr.Intn(0x80)), 'B'})
+			}
+			m3.Areas[k].Name.Value = nm
+			g := &memFile{b: append([]byte{}, pimg...)}
+			_ = fmap.Write(g, &m3, &fmap.Metadata{Start: uint64(start)})
+			emit("P", "p_json_id", H(g.b))
+		}
 
 		// malformed / adversarial reads
 		bad := append([]byte{}, written...)
@@ -507,6 +590,8 @@ func main() {
 	Register("readarea", opReadArea)
 	Register("writearea", opWriteArea)
 	Register("checksum", opChecksum)
+	Register("jsonrt", opJSONRT)
+	Register("p_json_id", pJSONID)
 	Register("p_write_read", pWriteRead)
 	Register("p_read_write_id", pReadWriteID)
 	Register("p_areas", pAreas)
